@@ -6,6 +6,9 @@ import (
 	"bytes"
 	"fmt"
 	"math/big"
+	"os"
+	"path/filepath"
+	"regexp"
 	"testing"
 
 	"verif.local/ref/gen"
@@ -142,5 +145,84 @@ func TestVerif_C18_SM2Tables(t *testing.T) {
 	rec.Enumerated(1, "curve-params")
 	if !bytes.Equal(g, sm2ref.Encode(sm2ref.G)) {
 		vt.Fail(t, rec, "C18:curve:generator", "NewSM2Generator is not G")
+	}
+}
+
+// The README's "totally open" claim in the other direction: the PUBLISHED derivation (make_table.go, run by the driver in the scratch
+// copy with the tablegen tag) must reproduce the shipped tables. Every numeric literal of the generated file is compared, in order,
+// with the shipped sm2_tables.go.
+func TestVerif_C18_GeneratorReproducesTables(t *testing.T) {
+	rec := stats.Get("C18", "sm2-generator")
+	rec.Exhaustive(true)
+	rec.Rule("the repository's table generator sm2/internal/make_table.go is run (go run -tags tablegen) on the tree under test; every hexadecimal literal it emits is compared, in order, with the literals of the shipped sm2_tables.go (complete; distinct by position), and the declared table names must match. If the generator does not build or is absent the sub-check is skipped (recorded), never a violation.")
+	t.Cleanup(stats.FlushAll)
+	root := os.Getenv("VERIF_SCRATCH")
+	if e, err := os.ReadFile(filepath.Join(root, "verif_tables_regen.err")); err == nil {
+		rec.Skipped("published generator not run: " + string(e))
+		t.Skip("generator not run")
+	}
+	regen, err := os.ReadFile(filepath.Join(root, "verif_tables_regen.txt"))
+	if err != nil {
+		rec.Skipped("published generator output not available (driver hook did not run)")
+		t.Skip("no generator output")
+	}
+	shipped, err := os.ReadFile(filepath.Join(root, "sm2", "internal", "sm2_tables.go"))
+	if err != nil {
+		rec.Skipped("sm2_tables.go not readable: " + err.Error())
+		t.Skip("no tables file")
+	}
+	lit := regexp.MustCompile(`0x[0-9a-fA-F]+|\b[0-9]{6,}\b`)
+	names := regexp.MustCompile(`(?m)^var (\w+)`)
+	type tok struct {
+		table string
+		val   string
+	}
+	parse := func(src []byte) (out []tok, tabs []string) {
+		cur := ""
+		for _, line := range bytes.Split(src, []byte("\n")) {
+			if m := names.FindSubmatch(line); m != nil {
+				cur = string(m[1])
+				tabs = append(tabs, cur)
+			}
+			if bytes.HasPrefix(bytes.TrimSpace(line), []byte("//")) {
+				continue
+			}
+			for _, l := range lit.FindAll(line, -1) {
+				v, ok := new(big.Int).SetString(string(l), 0)
+				if !ok {
+					continue
+				}
+				out = append(out, tok{cur, v.Text(16)})
+			}
+		}
+		return
+	}
+	a, ta := parse(shipped)
+	b, tb := parse(regen)
+	if fmt.Sprint(ta) != fmt.Sprint(tb) {
+		vt.Fail(t, rec, "C18:sm2:generator:tables", "the published generator declares tables %v, the shipped file %v", tb, ta)
+		return
+	}
+	if len(a) < 2*4*724 {
+		rec.Skipped(fmt.Sprintf("only %d literals recognised in sm2_tables.go (layout changed?): not judged", len(a)))
+		t.Skip("layout")
+	}
+	if len(a) != len(b) {
+		vt.Fail(t, rec, "C18:sm2:generator:count", "the published generator emits %d coordinate limbs, the shipped tables contain %d", len(b), len(a))
+		return
+	}
+	diff, first := 0, -1
+	for i := range a {
+		if a[i] != b[i] {
+			if first < 0 {
+				first = i
+			}
+			diff++
+		}
+	}
+	rec.Enumerated(int64(len(a)), "generator-literals")
+	rec.Sample("generator", map[string]interface{}{"literals_compared": len(a), "tables": ta, "identical_bytes": bytes.Equal(shipped, regen)})
+	if diff > 0 {
+		vt.Fail(t, rec, "C18:sm2:generator:differs", "running the published derivation (make_table.go) does not give the shipped tables: %d of %d limbs differ, first at literal #%d of %s: shipped 0x%s, generator 0x%s", diff, len(a), first, a[first].table, a[first].val, b[first].val)
 	}
 }
